@@ -522,6 +522,15 @@ class Flow:
                 return n
             visit_Tuple = visit_List
 
+            def visit_Subscript(self, n):
+                n = self.generic_visit(n)
+                # [a, b][0] -> a   (a literal sequence indexed by a literal position)
+                if isinstance(n.ctx, ast.Load) and isinstance(n.value, (ast.List, ast.Tuple)) and isinstance(n.slice, ast.Constant) and isinstance(n.slice.value, int) \
+                        and not isinstance(n.slice.value, bool) and -len(n.value.elts) <= n.slice.value < len(n.value.elts) \
+                        and not any(isinstance(x, ast.Starred) for x in n.value.elts):
+                    return n.value.elts[n.slice.value]
+                return n
+
         return T().visit(copy.deepcopy(expr))
 
     def _expand_comp(self, comp, node, depth, stack):
@@ -575,7 +584,9 @@ class Flow:
                 alts.append(copy.deepcopy(n))
             elif how[0] == "assign":
                 built = self._loop_built(nid, d, node) if isinstance(n, ast.Name) else None
-                if built is not None:
+                if built is not None and getattr(built, "_straight", False):
+                    alts.append(self.expand(built, node, depth - 1, st))
+                elif built is not None:
                     ex = self._expand_comp(built, d, depth - 1, st)
                     if getattr(built, "_is_sum", False):
                         ex = ast.Call(func=ast.Name(id="sum", ctx=ast.Load()), args=[ex], keywords=[])
@@ -717,6 +728,21 @@ class Flow:
         if not sites or def_stack[0] is None:
             return None
         outer, ncond = def_stack[0]
+        # straight-line construction: `L = []; L.append(a); L.append(b)` at the nesting level of the definition is the literal [a, b]
+        if is_list and all(k == "append" and len(c.args) == 1 and f == outer and len(conds) == ncond for k, c, f, conds, _ in sites):
+            if use is not None and all(self.cfg.by_stmt.get(id(st_)) is not None for st_ in []):
+                pass
+            nodes_ = []
+            for k, c, f, conds, _ in sites:
+                nd = [n for n in self.cfg.nodes if n.kind == "stmt" and isinstance(n.stmt, ast.Expr) and n.stmt.value is c]
+                if not nd:
+                    return None
+                nodes_.append(nd[0])
+            if use is not None and not all(self.cfg.dominates(nd, use) for nd in nodes_):
+                return None
+            lit = ast.List(elts=[copy.deepcopy(c.args[0]) for k, c, *_ in sites], ctx=ast.Load())
+            lit._straight = True
+            return ast.fix_missing_locations(ast.copy_location(lit, sites[0][1]))
         # the appends sit in exactly one loop below the nesting level at which the container was created
         if any(len(f) != len(outer) + 1 or f[:len(outer)] != outer or f[-1] == "?" for _, _, f, _, _ in sites):
             return None
